@@ -7,7 +7,7 @@
 //! The real operation is built from VPL over in-memory sources (plain / gzip / brotli) and read through
 //! `get_tile_data` and (2 of 3 cases) `get_tile_stream`; in the stream earlier sources suspend longer
 //! than later ones (staggered `yield_now`), so a merge that collects in completion order is exposed.
-use crate::c11::{diff_kind, make_factory, runtime, SourceSpec, Sources};
+use crate::c11::{box_around, compress_as, diff_kind, make_factory, runtime, SourceSpec, Sources, COORDS};
 use crate::common::*;
 use crate::indep_mvt::*;
 use serde_json::json;
@@ -40,6 +40,8 @@ pub struct MergeCase {
 	pub sources: Vec<(Option<Vec<u8>>, TileCompression)>,
 	/// source i of k suspends (k - i) * stagger times before its stream delivers: earlier sources finish later
 	pub stagger: u32,
+	/// where the tile sits (zoom 0 … 31, 32-grid borders of the merged stream's sub-boxes)
+	pub coord: (u8, u32, u32),
 }
 
 enum Res {
@@ -56,14 +58,14 @@ struct Runner {
 
 impl Runner {
 	fn run(&self, c: &MergeCase, with_stream: bool) -> (Res, Option<Res>, bool) {
-		let coord = TileCoord3::new(5, 6, 4).unwrap();
+		let coord = TileCoord3::new(c.coord.1, c.coord.2, c.coord.0).unwrap();
 		let mut map = HashMap::new();
 		for (i, (t, comp)) in c.sources.iter().enumerate() {
 			let mut tiles = HashMap::new();
 			if let Some(b) = t {
-				tiles.insert((4u8, 5u32, 6u32), compress(b, *comp));
+				tiles.insert(c.coord, compress(b, *comp));
 			}
-			map.insert(format!("s{i}"), SourceSpec { tiles, compression: *comp, yields: (c.sources.len() - i) as u32 * c.stagger, fail: vec![] });
+			map.insert(format!("s{i}"), SourceSpec { tiles, compression: *comp, yields: (c.sources.len() - i) as u32 * c.stagger, fail: vec![], format: TileFormat::PBF });
 		}
 		let sources: Sources = Arc::new(Mutex::new(map));
 		let factory = make_factory(&self.dir, sources);
@@ -82,7 +84,7 @@ impl Runner {
 			Err(m) => Res::Panic(m),
 		};
 		let stream = if with_stream {
-			Some(match catch(|| rt.block_on(async { op.get_tile_stream(TileBBox::new(4, 4, 4, 7, 7).unwrap()).await.collect().await })) {
+			Some(match catch(|| rt.block_on(async { op.get_tile_stream(box_around(c.coord)).await.collect().await })) {
 				Ok(v) => match v.into_iter().find(|(c, _)| *c == coord) {
 					Some((_, b)) => Res::Tile(b.into_vec()),
 					None => Res::None,
@@ -203,6 +205,15 @@ fn emit(out: &mut Out, runner: &Runner, c: &MergeCase, with_stream: bool) {
 			Res::Panic(m) => out.oracle(false, &format!("C10 merge: panic on valid tiles: {m}"), json!({"kind": "panic"}), json!({"case": line})),
 		}
 	}
+	if present == 1 {
+		// merged-with-nothing must equal what plain decoding / re-encoding of that tile gives (layers by name)
+		if let (Res::Tile(b), Some((Some(t), _))) = (&res, c.sources.iter().find(|(t, _)| t.is_some())) {
+			use versatiles_geometry::vector_tile::VectorTile;
+			if let Ok(Ok(p)) = catch(|| VectorTile::from_blob(&Blob::from(t.clone())).and_then(|t| t.to_blob())) {
+				out.oracle(dump_bytes(b, true) == dump_bytes(p.as_slice(), true), "C10 merge: a single present source is not delivered as plain from_blob/to_blob delivers it", json!({"kind": "single_source_differs"}), json!({"case": line}));
+			}
+		}
+	}
 	out.oracle(declared, "C10 merge: output not declared as uncompressed PBF", json!({"kind": "declared_compression"}), json!({"case": line}));
 	if let Some(s) = stream {
 		let same = match (&s, &res) {
@@ -213,6 +224,104 @@ fn emit(out: &mut Out, runner: &Runner, c: &MergeCase, with_stream: bool) {
 		out.eval(&format!("stream {line}"), nontrivial);
 		out.count(&format!("stream_stagger_{}", c.stagger));
 		out.oracle(same, &format!("C10 merge: get_tile_stream (sources staggered by {}) delivers different bytes than get_tile_data (feature order must be source order, not completion order)", c.stagger), json!({"kind": "stream_differs"}), json!({"case": line, "stagger": c.stagger}));
+	}
+}
+
+/// Faults after open and payload classes for the merge, and reuse of the operation object (no model line:
+/// the model has no notion of IO errors / codecs).  Judged: a source fault at the coordinate is reported by
+/// get_tile_data (never a tile built from the remaining sources); a tile the lookup refuses is absent from the
+/// stream; nothing panics; a second lookup and a second stream on the same object repeat the first byte for byte;
+/// merging a tile with an identical copy of itself doubles every layer's features.
+fn emit_faults(out: &mut Out, runner: &Runner, rng: &mut Rng, tiles: Vec<Vec<u8>>) {
+	let coord = *rng.pick(COORDS);
+	let k = tiles.len();
+	let kind = rng.below(5); // 0 read error, 1 wrong codec, 2 one-byte payload, 3 identical duplicate, 4 none (reuse only)
+	let victim = rng.below(k as u64) as usize;
+	let mut map = HashMap::new();
+	let mut plain: Vec<Vec<u8>> = vec![];
+	let mut codecs: Vec<String> = vec![];
+	for (i, t) in tiles.iter().enumerate() {
+		let declared = *rng.pick(&[TileCompression::Uncompressed, TileCompression::Gzip, TileCompression::Brotli]);
+		let mut payload = if kind == 3 { tiles[0].clone() } else { t.clone() };
+		let mut actual = declared;
+		let mut fail = vec![];
+		if i == victim {
+			match kind {
+				0 => fail.push(coord),
+				1 => {
+					// (not used: plain bytes in a brotli-declared source – the brotli crate accepts a PBF's first bytes as a
+					// complete stream and ignores the rest, so that mismatch is invisible below the vector operations; C04's subject)
+					actual = match declared {
+						TileCompression::Uncompressed => TileCompression::Brotli,
+						TileCompression::Gzip => TileCompression::Uncompressed,
+						TileCompression::Brotli => TileCompression::Gzip,
+					}
+				}
+				2 => payload = vec![*rng.pick(&[0x1au8, 0x00, 0xff, 0x0a])],
+				_ => {}
+			}
+		}
+		plain.push(payload.clone());
+		codecs.push(format!("{declared:?}<-{actual:?}"));
+		map.insert(format!("s{i}"), SourceSpec { tiles: HashMap::from([(coord, compress_as(&payload, actual))]), compression: declared, yields: rng.below(3) as u32, fail, format: TileFormat::PBF });
+	}
+	let sources: Sources = Arc::new(Mutex::new(map));
+	let factory = make_factory(&runner.dir, sources);
+	let vpl = format!("from_vectortiles_merged [ {} ]", (0..k).map(|i| format!("from_container filename=s{i}")).collect::<Vec<_>>().join(", "));
+	let rt = &runner.rt;
+	let key = format!("faults {kind} {victim} {coord:?} {}", plain.iter().map(|b| hex(b)).collect::<Vec<_>>().join(","));
+	out.eval(&key, true);
+	out.count(&format!("faults_kind_{}", ["read_error", "wrong_codec", "one_byte", "duplicate", "reuse"][kind as usize]));
+	let Ok(Ok(op)) = catch(|| rt.block_on(factory.operation_from_vpl(&vpl))) else { return };
+	let c3 = TileCoord3::new(coord.1, coord.2, coord.0).unwrap();
+	let look = || match catch(|| rt.block_on(op.get_tile_data(&c3))) {
+		Ok(Ok(Some(b))) => Res::Tile(b.into_vec()),
+		Ok(Ok(None)) => Res::None,
+		Ok(Err(_)) => Res::Err,
+		Err(m) => Res::Panic(m),
+	};
+	let stream = || match catch(|| rt.block_on(async { op.get_tile_stream(box_around(coord)).await.collect().await })) {
+		Ok(v) => match v.into_iter().find(|(c, _)| *c == c3) {
+			Some((_, b)) => Res::Tile(b.into_vec()),
+			None => Res::None,
+		},
+		Err(m) => Res::Panic(m),
+	};
+	let (l1, s1, l2, s2) = (look(), stream(), look(), stream());
+	let detail = json!({"case": format!("C10m {}", plain.iter().map(|b| hex(b)).collect::<Vec<_>>().join(",")), "fault": kind, "victim": victim, "coord": format!("{coord:?}"), "codecs": codecs});
+	let sig = |what: &str| json!({"kind": what, "fault": kind});
+	let same = |a: &Res, b: &Res| match (a, b) {
+		(Res::Tile(x), Res::Tile(y)) => x == y,
+		(Res::None, Res::None) | (Res::Err, Res::Err) => true,
+		_ => false,
+	};
+	out.oracle(same(&l1, &l2) && same(&s1, &s2), "C10 faults: a second lookup / stream on the same operation differs from the first", sig("reuse_differs"), detail.clone());
+	out.oracle(![&l1, &s1, &l2, &s2].iter().any(|r| matches!(r, Res::Panic(_))), "C10 faults: panic", sig("panic"), detail.clone());
+	if kind <= 2 {
+		out.oracle(matches!(l1, Res::Err), "C10 faults: a source fault (read error / wrong codec / one-byte payload) is not reported by get_tile_data", sig("fault_not_reported"), detail.clone());
+		if kind != 0 {
+			// (for a failing source *lookup* the source's own stream drops the tile, as reader streams do: not judged here)
+			out.oracle(matches!(s1, Res::None), "C10 faults: a tile the lookup refuses is delivered by the stream", sig("fault_streamed"), detail.clone());
+		}
+	} else {
+		out.oracle(matches!((&l1, &s1), (Res::Tile(a), Res::Tile(b)) if a == b), "C10 faults: stream and lookup differ", sig("stream_differs"), detail.clone());
+		if kind == 3 {
+			// k identical copies: every layer holds its features k times, in order
+			if let (Res::Tile(b), Some(t)) = (&l1, decode_tile(&tiles[0])) {
+				let names_unique = {
+					let mut n: Vec<&Vec<u8>> = t.layers.iter().map(|l| &l.name).collect();
+					n.sort();
+					n.windows(2).all(|w| w[0] != w[1])
+				};
+				if names_unique {
+					let one = sem_tile(&t);
+					let want = expected(&vec![one; k]);
+					let got = decode_tile(b).map(|t| sem_tile(&t));
+					let ok = got.as_ref().is_some_and(|g| g.len() == want.len() && g.iter().zip(&want).all(|(a, b)| a.name == b.name && a.feats == b.feats));
+					out.oracle(ok, "C10 faults: merging identical copies does not repeat the features", sig("duplicate_merge"), detail.clone());
+				}
+			}
+		}
 	}
 }
 
@@ -232,6 +341,7 @@ pub fn run(args: &Args) {
 	quiet_panics();
 	let mut out = Out::new(&args.out);
 	out.rule = "2–4 sources, each without a tile or with a tile from the independent MVT encoder (overlapping layer names, different key/value tables incl. duplicates and int64/sint64 twins, differing extents/versions, empty layers; a few tiles with a repeated layer name = model only), stored plain / gzip / brotli; the real from_vectortiles_merged built from VPL, read through get_tile_data and (2 of 3 cases) get_tile_stream with staggered sources (source i of k yields (k-i)*c times, c seeded 0..3, so earlier sources complete later); oracle: independent decoder's reading of the output vs per-name concatenation of the inputs' features in source order (extent/version of a merged layer not judged), existence, declared compression. non-trivial: at least two sources have the tile and share a non-empty layer name; distinct by case text".into();
+	out.notes.push("checklist: 1 thresholds = sweep_table_sizes (tag-index width border while merging) + extents/versions 0,1,4095..4097,u32::MAX; 2 faults = emit_faults (read error, wrong codec; plain bytes in a brotli-declared source are accepted by the brotli crate itself and not judged); 3 payloads = empty tile, one-byte, identical duplicates, truncated; 4 options: the operation has none; 5 reuse = second lookup/stream on the same object; 6 order = staggered sources; 7 n.a. (no HTTP); 8 coordinates = zoom 0..31 incl. 32-grid borders; 9 encoder freedoms = indep_mvt styles (unknown/extension fields and unpacked or split packed tag lists are rejected/not merged by the decoder by design and are not generated); 10 paths = stream vs lookup byte for byte, single present source vs plain re-encode".into());
 	let dir = args.out.join("c10-data");
 	std::fs::create_dir_all(&dir).unwrap();
 	let runner = Runner { rt: runtime(), dir };
@@ -239,7 +349,7 @@ pub fn run(args: &Args) {
 		for line in std::fs::read_to_string(p).unwrap().lines() {
 			let t: Vec<&str> = line.split(' ').collect();
 			if t.len() == 2 && t[0] == "C10m" {
-				let c = MergeCase { sources: t[1].split(',').map(|s| (if s == "none" { None } else { Some(unhex(s)) }, TileCompression::Uncompressed)).collect(), stagger: 2 };
+				let c = MergeCase { sources: t[1].split(',').map(|s| (if s == "none" { None } else { Some(unhex(s)) }, TileCompression::Uncompressed)).collect(), stagger: 2, coord: (4, 5, 6) };
 				emit(&mut out, &runner, &c, true);
 			}
 		}
@@ -247,6 +357,44 @@ pub fn run(args: &Args) {
 		return;
 	}
 	let mut rng = Rng::new(args.seed);
+	// threshold sweep: target tables growing across the 1→2 byte tag-index border while merging
+	let sizes: &[usize] = if args.thorough() { &[1, 63, 64, 127, 128, 129, 255, 256, 1000, 16383, 16384] } else { &[1, 64, 127, 128, 129, 256] };
+	for &n in sizes {
+		let a = ITile { layers: vec![sized_tables_layer("roads", n, 70), sized_strings_layer(n)] };
+		let mut b_layer = sized_tables_layer("roads", n.min(300) + 1, 3);
+		b_layer.keys.reverse(); // same strings, other indices
+		for f in b_layer.features.iter_mut() {
+			let m = b_layer.keys.len() as u32;
+			for t in f.tags.chunks_mut(2) {
+				t[0] = m - 1 - t[0];
+			}
+		}
+		let b = ITile { layers: vec![sized_strings_layer(n), b_layer] };
+		let c = MergeCase { sources: vec![(Some(encode_tile(&a, &PLAIN)), TileCompression::Uncompressed), (None, TileCompression::Gzip), (Some(encode_tile(&b, &PLAIN)), TileCompression::Brotli)], stagger: 1, coord: (6, 31, 32) };
+		emit(&mut out, &runner, &c, true);
+		out.count("sweep_table_sizes");
+	}
+	// "all tile sources must provide vector tiles": a source of another format must be refused when the pipeline is built
+	for (k, formats) in [[TileFormat::PBF, TileFormat::PNG], [TileFormat::PNG, TileFormat::PBF], [TileFormat::PBF, TileFormat::PBF]].iter().enumerate() {
+		let map: HashMap<String, SourceSpec> = formats.iter().enumerate().map(|(i, f)| (format!("s{i}"), SourceSpec { tiles: HashMap::new(), compression: TileCompression::Uncompressed, yields: 0, fail: vec![], format: *f })).collect();
+		let factory = make_factory(&runner.dir, Arc::new(Mutex::new(map)));
+		let built = catch(|| runner.rt.block_on(factory.operation_from_vpl("from_vectortiles_merged [ from_container filename=s0, from_container filename=s1 ]")));
+		let accepted = matches!(built, Ok(Ok(_)));
+		out.eval(&format!("formats {k}"), true);
+		out.oracle(accepted == (k == 2), &format!("C10 build: sources {formats:?} accepted={accepted}"), json!({"kind": "non_vector_source"}), json!({"formats": format!("{formats:?}")}));
+	}
+	// faults after open, payload classes, reuse
+	for _ in 0..args.n(300, 5000) {
+		let k = rng.range(2, 3) as usize;
+		let tiles: Vec<Vec<u8>> = (0..k)
+			.map(|_| {
+				let o = opts(&mut rng);
+				let t = gen_tile(&mut rng, &o, true);
+				encode_tile(&t, &gen_style(&mut rng))
+			})
+			.collect();
+		emit_faults(&mut out, &runner, &mut rng, tiles);
+	}
 	let n = args.n(3000, 40000);
 	for i in 0..n {
 		let k = rng.range(2, 4);
@@ -274,7 +422,9 @@ pub fn run(args: &Args) {
 				with_stream = true;
 			}
 		}
-		emit(&mut out, &runner, &MergeCase { sources, stagger }, with_stream);
+		let coord = if i % 2 == 0 { (4, 5, 6) } else { *rng.pick(COORDS) };
+		out.count(&format!("zoom_{}", coord.0));
+		emit(&mut out, &runner, &MergeCase { sources, stagger, coord }, with_stream);
 	}
 	out.finish();
 }
